@@ -396,6 +396,10 @@ def run(tier):
     if r[3] and len(samples) < 2:
       samples.append(r[3])
   rep.add_part('plugs-x-faults', evaluations=n, distinct_nontrivial=sum(r[2] for r in res), exhaustive=True, samples=samples)
+  for kind, what in run_forced_abort():
+    rep.merge_violations([(kind, 'abort in main, second abort in the teardown phase: %s' % what, {'forced_abort': True})])
+  rep.add_part('forced abort during a teardown phase', evaluations=1, distinct_nontrivial=1, exhaustive=True,
+               samples=[{'shape': 'group(main=[m(A)], teardown=[t(B)]); abort while m runs, again while t runs'}])
   shapes = set()
   for v in OVERLAP_VARIANTS:
     out = run_overlap(v)
@@ -500,6 +504,71 @@ def check_overlap(variant, out):
   return bad
 
 
+def run_forced_abort():
+  """Abort #1 while the main phase of a group runs, abort #2 (forced) while the group's teardown phase runs: every plug
+  instance is still torn down exactly once, before the output callbacks.  Event-driven."""
+  L = progs.lib()
+  h = L['htf']
+  C = classes()
+  del LOG[:]
+  FAULTS.clear()
+  holder = {}
+  in_main, in_td, go_on = threading.Event(), threading.Event(), threading.Event()
+
+  def m(test, a):
+    LOG.append(('phase', 'm', (('a', id(a)),)))
+    in_main.set()
+    while True:
+      time.sleep(0.0005)
+
+  def t(test, b):
+    LOG.append(('phase', 't', (('b', id(b)),)))
+    in_td.set()
+    go_on.wait(5)
+    while True:             # (ends when the forced abort cancels it)
+      time.sleep(0.0005)
+
+  mp = L['plugs'].plug(a=C['A'])(h.PhaseOptions(name='m')(m))
+  tp = L['plugs'].plug(b=C['B'])(h.PhaseOptions(name='t', timeout_s=3)(t))
+  test = h.Test(h.PhaseGroup(main=[mp], teardown=[tp]))
+  holder['test'] = test
+  test.add_output_callbacks(lambda rec: LOG.append(('callback', rec.outcome.name if rec.outcome else None)))
+
+  def operator():
+    if in_main.wait(5):
+      test.abort_from_sig_int()
+      if in_td.wait(5):
+        test.abort_from_sig_int()
+    go_on.set()
+
+  th_ = threading.Thread(target=operator, name='operator')
+  th_.daemon = True
+  th_.start()
+  try:
+    res = test.execute()
+  except BaseException as e:  # pylint: disable=broad-except
+    res = 'EXC:%s' % type(e).__name__
+  finally:
+    go_on.set()
+    h.Test.HANDLED_SIGINT_ONCE = False
+  th_.join(5)
+  log = list(LOG)
+  bad = []
+  inits = {e[1]: e[2] for e in log if e[0] == 'init'}
+  cbs = [i for i, e in enumerate(log) if e[0] == 'callback']
+  if not in_td.is_set():
+    bad.append(('forced-abort:harness', 'the teardown phase never started (log %r)' % ([e[:2] for e in log],)))
+  for cls, pid in inits.items():
+    tds = [i for i, e in enumerate(log) if e[0] == 'teardown' and e[2] == pid]
+    if len(tds) != 1:
+      bad.append(('forced-abort:teardown-count', 'after a forced (second) abort the %s instance had tearDown called %d times' % (cls, len(tds))))
+    elif cbs and tds[0] > cbs[0]:
+      bad.append(('forced-abort:teardown-late', 'tearDown of %s ran after the output callback' % cls))
+  if [e[1] for e in log if e[0] == 'callback'] != ['ABORTED']:
+    bad.append(('forced-abort:outcome', 'callbacks saw %r' % ([e[1] for e in log if e[0] == 'callback'],)))
+  return bad
+
+
 OVERLAP_VARIANTS = [
     ([[('a', 'A')], [('a', 'A')]], [[('a', 'A')], [('a', 'A')]], 'X'),
     ([[('a', 'A')], [('a', 'A'), ('b', 'B')]], [[('b', 'B')], [('a', 'A')]], 'X'),
@@ -509,6 +578,11 @@ OVERLAP_VARIANTS = [
 
 
 def replay(art):
+  if art['replay'].get('forced_abort'):
+    bad = run_forced_abort()
+    for b in bad:
+      print('VIOLATED', b)
+    return 1 if bad else 0
   if 'overlap' in art['replay']:
     v = art['replay']['overlap']
     v = ([[tuple(x) for x in r] for r in v[0]], [[tuple(x) for x in r] for r in v[1]], v[2])
